@@ -38,6 +38,7 @@ def main():
     ap = argparse.ArgumentParser()
     ap.add_argument("--n", type=int, default=300); ap.add_argument("--workers", type=int, default=5); ap.add_argument("--seed", type=int, default=1)
     ap.add_argument("--out", default="mutsweep/results.jsonl"); ap.add_argument("--files"); ap.add_argument("--kinds"); ap.add_argument("--only", help="earlier result file: re-run its survivors and errors")
+    ap.add_argument("--all-props", action="store_true", help="after the properties anchored in the file, run every other property too")
     a = ap.parse_args()
     if not os.path.exists(GOMUT):
         rc, o = sh("go build -o %s ." % GOMUT, cwd=os.path.join(ROOT, "tools", "gomut"))
@@ -96,6 +97,8 @@ def main():
                             res["outcome"] = "killed_by_suite"
                         else:
                             props = sorted(anc.get(s["file"], []), key=ORDER.index)
+                            if a.all_props:
+                                props = props + [p for p in ORDER if p not in props]
                             res["outcome"] = "survived"; res["ran"] = []
                             for p in props:
                                 rc, o = sh("./verif check %s --tier quick --no-evidence --repo %s" % (p, wt), cwd=ROOT, timeout=1800)
